@@ -33,13 +33,19 @@ CLAIMS = {
  "C07": ("Lean 4 theorems (apply_log: records of a blob only grow by appending; ids_never_reused_in_run in Props/C15.lean; L5 blobBytes append lemmas; Props/C07.lean over the event-emitting L6 model is in progress) + implementation-level oracles that do not depend on the model: byte snapshots of every blob file (work and corrupted dirs) after every step incl. restarts and quarantines (earlier content is a prefix or the file moved unchanged; new names carry ids above every id ever seen), tap-trace predicates (no blob write below the end of file, no create of an existing blob name), queries at quiescent points issue no file operation.",
          "4/C07", "injected blob damage is applied by the harness between sessions (the reference snapshot follows it); after the first injected damage the model comparison is off and the Spec oracle follows the implementation probe",
          "Lean 4 invariant proof (append-only log, fresh ids) + byte-snapshot and tap-trace oracles on the implementation"),
+ "C08": ("Lean 4 theorems on the labelled transition system of clients / worker / storage RwLock (writer preference) / bounded channel (Props/C08.lean): the deadlock of the pinned protocol at exactly capacity+2 writers (deadlock_witness, constructive, for every capacity; replayed on the real code and repaired), bounded deadlock freedom, rw_exclusion, append_cs_atomic, ranges_disjoint / ranges_disjoint_interleaved / written_bytes_intact (records never overlap for any interleaving); the model of the repaired protocol (send after release) with deadlock freedom for every N is in progress. Tie: 2..2000 concurrent client tasks with stamped invocations/responses on fresh and reopened blobs, with rotation and a maintenance task, both runtimes; every probe/read is checked for freshness and provenance, every acknowledged write must be in a blob file, every blob file must parse to its last byte, the final version lists must equal the sequential outcome, the run must end.",
+         "4/C08", "the schedule is whatever tokio and the OS produce; the LTS abstracts the scheduler (FIFO writer preference assumed) and trusts SeqCst atomics",
+         "Lean 4 proof over the client/worker/lock/channel LTS + concurrent stress with history checking"),
+ "C14": ("Lean 4 segment model (Model/Cancel.lean, Props/C14.lean, 31 theorems): every storage write/delete as a list of atomic segments between the await points of the code, with detached blocking closures; cancel_write_states (the exact set of reachable cancel states), cancel_atomic_write (session view and regenerating-restart view are each 'before' or 'after'; they differ only in the orphan state), orphan_hidden_by_dump (finding E20), no_reserved_gap, parses_after_restart, later_ops_succeed, cancelled_creation_leaves_empty_file (finding E18). Tie: operation futures are polled k times and dropped through the public API (current-thread runtime: every file operation is a suspension point), then reads, further operations and restarts with all index files removed; the Spec oracle accepts 'entirely or not at all, at the latest from the next start'.",
+         "4/C14", "dropping a JoinHandle does not cancel a spawn_blocking closure (tokio contract); two known findings (E18 header-less blob file after a cancelled creation, E20 orphan record hidden by a dumped index)",
+         "Lean 4 proof over the await-segment model + poll-and-drop harness"),
  "C09": ("Lean 4 theorems (Props/C09.lean, 28): for every non-empty well-formed header map and every key length with fan-out >= 3 (K <= 2032) the index file built by the modelled serializer answers get_latest / find_by_key exactly like the in-memory vectors (ondisk_latest_eq, ondisk_all_eq, ondisk_eq_inmem), count_eq, load_build, plus leaf packing, window binary search, run collection across the buffer/file hand-over, portions, absolute layer offsets and descent (descent_finds_leaf). Tie: the L4 byte image of every index file (hash and filter section masked) is compared with the real file, and every look-up goes through the real file after settle; key lengths {1,4,8,33,128,1000}.",
          "4/C09", "fan-out 2 (K in 2033..4039: debug-build underflow on a key-less node) and rhs > block (K >= 4040: stored keys missed) are outside the property range 1..1000 and recorded as observations with decide-witnesses",
          "Lean 4 proof of the B+tree build/look-up model + byte-exact index-file correspondence"),
  "C10": ("Lean 4 theorems (Props/C10.lean, 31) for an arbitrary hash family: bloom add/mono/merge/zero sizes, file_probe_eq_mem (byte probe of the little-endian image = in-memory bit, any bit count), save/raw/filters round-trips, bloom_offset_correct, range_no_fn/merge_hull, combined_no_fn, the container invariant node_filter_sup preserved by push (all cases), pop, re-push, offload, possible_rev_complete, check_filter_no_fn (= the hypothesis of C01's prune_transparent). Tie: pearl::Bloom is driven directly and every answer, serialized image, merge, file probe, off-load and reload is compared bit for bit with the model running its Lean port of the vendored aHash fallback hasher (pinned vectors reproduced); storage-level check_filters/check_filter are judged by a no-false-negative oracle over histories with offloads, restores and restarts.",
          "4/C10", "bits_count (f64 formula) is an input; the literal stack-machine iterator is tied to the recursive one by #guard tests only (listed NOT YET PROVED); storage-level filter bits are not compared bit-exactly",
          "Lean 4 proofs over filter/container models + bit-exact correspondence on the Bloom type + no-false-negative oracle"),
- "C11": ("Fault enumeration through the I/O failpoints of the hook (the n-th create/write/sync on blob or index files fails with ENOSPC/EIO or is cut short) in client calls and background dumps, judged by the Spec-level oracle over the implementation's own acknowledgements (an acknowledged record must stay readable in the session and be served or preserved intact in the corrupted directory after restart; a failed operation must never be served later; operations succeed once the fault clears; worker alive; rotation continues) plus byte snapshots; on top of the L5/L6 theorems (Props/C05, C07, C12: what a write puts where, append-only log, sync discipline). A Lean fault model with its own theorems (acked_stay_readable, failed_not_served_later) is not yet written: this check is proof-backed only through those layers.",
+ "C11": ("Lean 4 fault model (Model/Fault.lean, Props/C11.lean, 34 theorems over arbitrary sequences of write steps with outcomes ok / failed before writing / cut after n bytes / second buffer failed): acked_stay_readable, acked_ranges_disjoint, failed_not_served_in_session, accepts_after_fault, restart_after_faults (start-up never fails; acknowledged records survive in the served or quarantined file), dump_failure_keeps_index, and the exact refutation failed_write_indexed_after_restart (E8) with its _partial. Tie: fault enumeration through the I/O failpoints of the hook (the n-th create/write/sync on blob or index files fails with ENOSPC/EIO or is cut short) in client calls and background dumps, judged by the Spec-level oracle over the implementation's own acknowledgements (an acknowledged record must stay readable in the session and be served or preserved intact in the corrupted directory after restart; a failed operation must never be served later; operations succeed once the fault clears; worker alive; rotation continues) plus byte snapshots; on top of the L5/L6 theorems (Props/C05, C07, C12: what a write puts where, append-only log, sync discipline). The model is not run in lock-step with the implementation while a fault is armed: the Spec oracle judges there.",
          "4/C11", "model comparison is off while a fault is armed; one known finding (E8: a torn tail record with a complete header is accepted by the index-less scan)",
          "fault enumeration with Spec oracle on the implementation, backed by the Lean byte/trace theorems"),
  "C12": ("Tap-trace predicates on the implementation for every dirty-byte limit (header synced before the first record of a new blob; index header with written bit only after a sync of its blob covering blob_size, followed by the index's own sync; no un-synced bytes after explicit fsyncdata or close of the active blob; un-synced bytes <= limit at quiescence); Lean 4 L6 event model and Props/C12.lean theorems over all operation sequences are in progress (trace correspondence).",
@@ -89,7 +95,7 @@ def main():
         }],
         "checks": checks,
         "not_applicable": na,
-        "notes": "fix: commits in /repo: a311110 (C15 E1), 0b3a5fc (C04/C11 E2), 33c2a77 (C13 E3), 2eb3c52 (C03 E4), 1b4c650 (C12 E13), 225d28c (C07/C03 E9), 0ede233 (C12 E14), e937426 (C16 E5), 9bcfef8 (C11 E10), 310988c (C11 E15), 5a4cce7 (C11 E16), 5a608af (C06 E17); see known_findings.json and DESIGN.md section 5",
+        "notes": "fix: commits in /repo: a311110 (C15 E1), 0b3a5fc (C04/C11 E2), 33c2a77 (C13 E3), 2eb3c52 (C03 E4), 1b4c650 (C12 E13), 225d28c (C07/C03 E9), 0ede233 (C12 E14), e937426 (C16 E5), 9bcfef8 (C11 E10), 310988c (C11 E15), 5a4cce7 (C11 E16), 5a608af (C06 E17), eb0e048 (C14 E19), fe5e781 (C08 E7); see known_findings.json and DESIGN.md section 5",
     }
     json.dump(m, open(os.path.join(ROOT, 'MANIFEST.json'), 'w'), indent=1)
 
